@@ -44,7 +44,22 @@ var nastyStrings = []string{
 	" \t# c", "1.2.3.4 a b # c", "1.2.3.4\tA a", "::1 localhost", "a,b , ,c", "K", "ſ", "xxxk", "abs", "some ω", "abcd\xff", "Kelvin K", "mass Å", "ǅ", "ß", "ϑ", "µ", "0.0.0.0.0.0.0.0.0.0.0.0.0.0.0.0.0.0.0.0.0.0.0.0.0.0.0.0.0.0.0.0.ip6.arpa",
 }
 
+// c01Cur: the name of the inventory entry whose arguments are being generated.  Its words
+// choose the family of text the entry gets half of the time (reverse names for the ARPA codec,
+// names for the validators, address texts for the address functions).
+var c01Cur string
+
 func genNasty(rng *rand.Rand) string {
+	if rng.IntN(2) == 0 {
+		switch n := strings.ToLower(c01Cur); {
+		case strings.Contains(n, "reversed") || strings.Contains(n, "arpa"):
+			return genArpaName(rng)
+		case strings.Contains(n, "domain") || strings.Contains(n, "hostname") || strings.Contains(n, "label"):
+			return genName(rng)
+		case strings.Contains(n, "ipport") || strings.Contains(n, "hostport") || strings.Contains(n, "splithost"):
+			return genIPPortText(rng)
+		}
+	}
 	return dictMutate(rng, genNasty0(rng), " .:%[]/#\t", 10)
 }
 
@@ -410,6 +425,7 @@ func evalC01(c string) (res Result) {
 	seed := uint64(atoi(f[2]))
 	rng := rand.New(rand.NewPCG(seed, 0xC01))
 	c01Override = nil
+	c01Cur = f[1]
 	if len(f) > 3 {
 		// "t<idx>": the first text argument is the idx-th of the tiny inputs
 		s := c01Tiny[atoi(f[3][1:])%len(c01Tiny)]
